@@ -27,6 +27,10 @@ structure ZX where
   mic : Bool := false
   ayReg : Nat := 0
   ayRegs : Nat → BitVec 8 := fun _ => 0
+  /-- ghost: every RAM store so far as (RAM page, offset, value), newest first — lets the lock-step
+  correspondence compare the *whole* RAM of the real machine (stores into pages no window maps
+  included) without enumerating the memory function -/
+  wlog : List (Nat × Nat × BitVec 8) := []
 
 def ZX.new (k : Kind) (kempston mouse : Bool) : ZX :=
   { ctl := Ctl.new k, kbd := Input.Kbd.init kempston mouse }
@@ -67,7 +71,12 @@ instance : Z80.Bus ZX where
   waitNoMreq a clk z := { z with ctl := z.ctl.waitMreq a clk }
   waitInternal clk z := { z with ctl := z.ctl.waitInternal clk }
   readInternal a z := (z.ctl.readInternal a, z)
-  writeInternal a v z := { z with ctl := z.ctl.writeInternal a v }
+  writeInternal a v z :=
+    { z with
+      ctl := z.ctl.writeInternal a v
+      wlog := match z.ctl.mem.pagedAddress a with
+        | (.ram p, off) => (p, off, v) :: z.wlog
+        | (.rom _, _) => z.wlog }
   readIo := ZX.readIo
   writeIo := ZX.writeIo
   readInterrupt z := (0xFF, z)
